@@ -23,3 +23,12 @@ __CPROVER_ensures(__tmcg_thrown == 0 || __tmcg_thrown == TMCG_EXC_runtime_error 
 /* a field prime shorter than the exponent size leaves the error indicator g = 0 */
 __CPROVER_ensures(__tmcg_thrown == 0 && UF(bits)(V(self->p)) < exponentsize ==> V(self->g) == 0)
 //@ end
+
+//@ function BarnettSmartVTMF_dlog__PublishGroup
+//@ contract
+__CPROVER_requires(__CPROVER_is_fresh(self, sizeof(*self)) && __CPROVER_is_fresh(out, sizeof(ios_t)) && out->nput == 0)
+__CPROVER_assigns(IOS_OUT_ASSIGNS(out))
+/* C11 (export half): exactly the four integers p, q, g, k, in the order the stream constructor reads them */
+__CPROVER_ensures(out->nput == 4)
+__CPROVER_ensures((ghost_ok == 0 ==> out->okv == V(self->p)) && (ghost_ok == 1 ==> out->okv == V(self->q)) && (ghost_ok == 2 ==> out->okv == V(self->g)) && (ghost_ok == 3 ==> out->okv == V(self->k)))
+//@ end
